@@ -336,7 +336,27 @@ fn shadow_fit<F: linfa::Float>(x: &[Vec<f64>], y: &[usize], w: &[f32], ncls: usi
     })).ok()
 }
 
-struct Spec { x: Vec<Vec<f64>>, d: usize, y: Vec<usize>, ncls: usize, w: Option<Vec<f32>>, p: Params, lt: u64, stream: &'static str, kind: String, extra_tags: Vec<String> }
+struct Spec { x: Vec<Vec<f64>>, d: usize, y: Vec<usize>, ncls: usize, w: Option<Vec<f32>>, p: Params, lt: u64, stream: &'static str, kind: String, extra_tags: Vec<String>,
+              /// weight-scale twin: index of the spec whose weights (and min_weight_leaf) were multiplied by 2^scale
+              twin_of: Option<usize>, scale: i32 }
+
+/// Same predicate as [exact_sums] of C14/Corr.v: all weights are non-negative integer multiples of one power of
+/// two 2^e (e >= -126) and sum to at most 2^24 * 2^e, so that every f32 partial sum of the fit is exact.
+fn exact_sums(w: &[f32]) -> bool {
+    if !w.iter().all(|v| v.is_finite() && *v >= 0.0) { return false; }
+    let mut emin: Option<i32> = None;
+    for v in w.iter().filter(|v| **v > 0.0) {
+        let b = v.to_bits();
+        let (ex, man) = (((b >> 23) & 0xff) as i32, b & 0x7f_ffff);
+        let (m, e) = if ex == 0 { (man, -149) } else { (man | 0x80_0000, ex - 150) };
+        let val = e + m.trailing_zeros() as i32;
+        emin = Some(emin.map_or(val, |a| a.min(val)));
+    }
+    match emin {
+        None => true,
+        Some(e) => e >= -126 && w.iter().map(|v| *v as f64).sum::<f64>() <= 16777216.0 * 2f64.powi(e),
+    }
+}
 
 fn pick_params(r: &mut Sm64, n: usize, entropy: bool) -> Params {
     let max_depth = *r.pick(&[None, None, Some(0), Some(1), Some(2), Some(3), Some(5)]);
@@ -461,7 +481,7 @@ fn main() {
             let mut p = default_p.clone();
             // alternate the criterion-independent limits so that small trees also meet them
             match code % 4 { 1 => p.max_depth = Some(1), 2 => p.mwl = 2.0, 3 => p.mws = 3.0, _ => {} }
-            specs.push(Spec { x, d: 1, y, ncls: 2, w: None, p, lt: code % 3, stream: "A_exhaustive_small", kind: "lattice1d".into(), extra_tags: vec![] });
+            specs.push(Spec { x, d: 1, y, ncls: 2, w: None, p, lt: code % 3, stream: "A_exhaustive_small", kind: "lattice1d".into(), extra_tags: vec![], twin_of: None, scale: 0 });
         }
     }
 
@@ -476,7 +496,7 @@ fn main() {
         let (w, wt) = pick_weights(&mut r, n);
         let p = pick_params(&mut r, n, false);
         let lt = r.below(4);
-        specs.push(Spec { x, d, y, ncls: 2, w, p, lt, stream: "B_two_class_gini", kind: format!("kind_{}", kind), extra_tags: vec![wt.into()] });
+        specs.push(Spec { x, d, y, ncls: 2, w, p, lt, stream: "B_two_class_gini", kind: format!("kind_{}", kind), extra_tags: vec![wt.into()], twin_of: None, scale: 0 });
     }
 
     // ---- stream C: 2..6 classes, both criteria, all label types
@@ -492,7 +512,7 @@ fn main() {
         let ent = r.chance(0.5);
         let p = pick_params(&mut r, n, ent);
         let lt = if ncls == 2 { *r.pick(&[0u64, 1, 2, 3, 5, 6]) } else { *r.pick(&[0u64, 1, 3, 3, 5, 6]) };
-        specs.push(Spec { x, d, y, ncls, w, p, lt, stream: "C_multi_class", kind: format!("kind_{}", kind), extra_tags: vec![wt.into()] });
+        specs.push(Spec { x, d, y, ncls, w, p, lt, stream: "C_multi_class", kind: format!("kind_{}", kind), extra_tags: vec![wt.into()], twin_of: None, scale: 0 });
     }
 
     // ---- stream D: extreme magnitudes: neighbouring doubles whose spacing exceeds 1e-5 (the midpoint
@@ -518,7 +538,7 @@ fn main() {
         let mut p = pick_params(&mut r, n, ent);
         p.max_depth = Some(1 + r.below(4) as usize);
         p.mid = 1e-5;
-        specs.push(Spec { x, d: 1, y, ncls: 2, w: None, p, lt: 0, stream: "D_adjacent_doubles", kind: "adjacent".into(), extra_tags: vec!["adjacent_float_midpoint".into()] });
+        specs.push(Spec { x, d: 1, y, ncls: 2, w: None, p, lt: 0, stream: "D_adjacent_doubles", kind: "adjacent".into(), extra_tags: vec!["adjacent_float_midpoint".into()], twin_of: None, scale: 0 });
     }
 
     // ---- stream E: f32 features (F = f32): neighbouring f32 values at ordinary magnitude (>= 128 their
@@ -556,7 +576,7 @@ fn main() {
         if adjacent { p.max_depth = Some(1 + r.below(4) as usize); }
         let mut extra = tags;
         extra.push(wt.into());
-        specs.push(Spec { x, d, y, ncls, w, p, lt: 4, stream: "E_f32_features", kind, extra_tags: extra });
+        specs.push(Spec { x, d, y, ncls, w, p, lt: 4, stream: "E_f32_features", kind, extra_tags: extra, twin_of: None, scale: 0 });
     }
 
     // ---- stream F: 3..6 classes with sample weights that are NOT dyadic (random 24-bit mantissas in
@@ -578,7 +598,7 @@ fn main() {
         let lt = *r.pick(&[0u64, 1, 3, 5, 6, 4]);
         if lt == 4 { p.mid = (p.mid.max(2e-7) as f32) as f64; }
         let x = if lt == 4 { x.iter().map(|row| row.iter().map(|v| (*v as f32) as f64).collect()).collect() } else { x };
-        specs.push(Spec { x, d, y, ncls, w: Some(w), p, lt, stream: "F_rounding_weights", kind: format!("kind_{}", kind), extra_tags: vec!["weights_full_mantissa".into()] });
+        specs.push(Spec { x, d, y, ncls, w: Some(w), p, lt, stream: "F_rounding_weights", kind: format!("kind_{}", kind), extra_tags: vec!["weights_full_mantissa".into()], twin_of: None, scale: 0 });
     }
 
     // ---- stream G: sample weights from a decimal palette (0.3, 1.0, 0.1, 0.7, ...). They are not dyadic,
@@ -665,7 +685,80 @@ fn main() {
         let lt = if k == 0 { 0 } else if ncls == 2 { *r.pick(&[0u64, 1, 2, 3, 5, 6, 4]) } else { *r.pick(&[0u64, 1, 3, 5, 6, 4]) };
         let mut p = p;
         if lt == 4 { p.mid = (p.mid.max(2e-7) as f32) as f64; }
-        specs.push(Spec { x, d, y, ncls, w: Some(w), p, lt, stream: "G_cancelling_weights", kind: if tie_mode { "rounded_sum_ties".into() } else { "class_blocks".into() }, extra_tags: vec!["weights_decimal_palette".into()] });
+        specs.push(Spec { x, d, y, ncls, w: Some(w), p, lt, stream: "G_cancelling_weights", kind: if tie_mode { "rounded_sum_ties".into() } else { "class_blocks".into() }, extra_tags: vec!["weights_decimal_palette".into()], twin_of: None, scale: 0 });
+    }
+
+    // ---- stream H: tiny sample weights that are NOT dyadic (normalised importance weights of the order of
+    //      1e-8 .. 1e-11: decimal scales times small integers / palette values). The class weights reaching
+    //      a node then differ by far less than any absolute epsilon of ordinary size although their ratios
+    //      are 1 : 2 : 4. The heaviest class is mostly NOT the smallest label; constant features (a single
+    //      leaf), duplicated records with conflicting labels (impure leaves) and separable blocks occur.
+    //      Oracle: exact rational weights up to the relative allowance n * 2^-23 of the node's weight.
+    let nh = if thorough { 200 } else { 40 };
+    for k in 0..nh {
+        let mut r = rng.fork();
+        let ncls = 2 + r.below(3) as usize;
+        let scale = *r.pick(&[2e-8f32, 1e-8, 3e-9, 7e-10, 5e-11, 1.4901161e-8, 2.5e-7]);
+        let mult = [1.0f32, 2.0, 4.0, 3.0, 0.3, 0.7];
+        // class c gets a weight multiplier that grows with c in most cases (heaviest = largest label)
+        let heavy_last = r.chance(0.75);
+        let shape = k % 4;
+        let d = if shape == 0 { 1 } else { 1 + r.below(2) as usize };
+        let n = 4 + r.below(9) as usize;
+        let (mut x, mut y, mut w) = (Vec::new(), Vec::new(), Vec::new());
+        for i in 0..n {
+            let c = if i < ncls { i } else { r.below(ncls as u64) as usize };
+            let row: Vec<f64> = match shape {
+                0 => vec![1.0; d],                                                    // constant feature: one leaf
+                1 => (0..d).map(|_| r.range(0, 1) as f64).collect(),                  // duplicated records, conflicting labels
+                2 => (0..d).map(|j| if j == 0 { c as f64 + 0.25 * r.range(-1, 1) as f64 } else { r.range(0, 2) as f64 }).collect(),
+                _ => (0..d).map(|_| r.range(0, 3) as f64).collect(),
+            };
+            let rank = if heavy_last { c } else { ncls - 1 - c };
+            let m = if r.chance(0.8) { mult[rank.min(3)] } else { *r.pick(&mult) };
+            x.push(row); y.push(c); w.push(m * scale);
+        }
+        let ent = r.chance(0.4);
+        let p = Params {
+            entropy: ent,
+            max_depth: *r.pick(&[None, None, Some(0), Some(1), Some(2)]),
+            mws: *r.pick(&[2.0f32, 2.0, 1.0, 3.5]),
+            mwl: *r.pick(&[1.0f32, 0.5, 2.0, 1e-3]) * scale,
+            mid: *r.pick(&[1e-5f64, 1e-5, 1e-3, 0.02]),
+        };
+        let lt = if ncls == 2 { *r.pick(&[0u64, 1, 2, 3, 5, 6]) } else { *r.pick(&[0u64, 1, 3, 5, 6]) };
+        specs.push(Spec { x, d, y, ncls, w: Some(w), p, lt, stream: "H_tiny_weights", kind: format!("tiny_shape_{}", shape), extra_tags: vec!["weights_tiny_not_dyadic".into()], twin_of: None, scale: 0 });
+    }
+
+    // ---- weight-scale twins: every second weighted case of streams B..G (and every sixth unweighted one of
+    //      streams B and C, as constant weights 2^k) is run again with ALL sample weights and min_weight_leaf
+    //      multiplied by 2^k, k from {-30, -26, -20, -10, 10, 20}. Multiplying by a power of two commutes with
+    //      every f32 operation of the fit (no overflow / underflow at these sizes) and the impurities only see
+    //      weight ratios, so the expected tree is the tree of the unscaled case bit for bit (min_weight_split is
+    //      compared with the NUMBER of samples by the code and stays as it is). Dyadic weights stay exactly
+    //      summable at every scale, so the exact checker applies unchanged.
+    {
+        let scales = [-30i32, -26, -20, -10, 10, 20];
+        let (mut nw, mut nu, mut ns) = (0usize, 0usize, 0usize);
+        let base = specs.len();
+        for i in 0..base {
+            let (weighted, stream) = (specs[i].w.is_some(), specs[i].stream);
+            if stream == "A_exhaustive_small" || stream == "D_adjacent_doubles" || stream == "H_tiny_weights" { continue; }
+            let take = if weighted { nw += 1; nw % 2 == 1 } else if stream == "B_two_class_gini" || stream == "C_multi_class" { nu += 1; nu % 6 == 1 } else { false };
+            if !take { continue; }
+            let k = scales[ns % scales.len()];
+            ns += 1;
+            let f = 2f32.powi(k);
+            let o = &specs[i];
+            let w: Vec<f32> = o.w.clone().unwrap_or_else(|| vec![1.0; o.x.len()]).iter().map(|v| v * f).collect();
+            let mut p = o.p.clone();
+            p.mwl *= f;
+            let mut tags = o.extra_tags.clone();
+            tags.push(format!("weight_scale_2p{}", k));
+            tags.push(format!("twin_of_stream_{}", o.stream));
+            let twin = Spec { x: o.x.clone(), d: o.d, y: o.y.clone(), ncls: o.ncls, w: Some(w), p, lt: o.lt, stream: "S_weight_scale_twins", kind: o.kind.clone(), extra_tags: tags, twin_of: Some(i), scale: k };
+            specs.push(twin);
+        }
     }
 
     // ---- crash isolation: a stack overflow or abort inside the library cannot be caught in-process.
@@ -680,6 +773,8 @@ fn main() {
             writeln!(so.lock(), "start {}", id).unwrap();
             so.lock().flush().unwrap();
             let _ = run(s.lt, &s.x, s.d, &s.y, &s.w, &s.p, &[], s.ncls);
+            // a weight-scale twin refits its unscaled case in the main process (metamorphic oracle)
+            if let (Some(oi), Some(_)) = (s.twin_of, args.only) { let o = &specs[oi]; let _ = run(o.lt, &o.x, o.d, &o.y, &o.w, &o.p, &[], o.ncls); }
             writeln!(so.lock(), "ok {}", id).unwrap();
             so.lock().flush().unwrap();
         }
@@ -772,11 +867,30 @@ fn main() {
                         out.rust_fail(id, 32768, &tagrefs, "two fits of the same dataset with the same parameters returned different trees", &desc);
                     }
                 }
+                // metamorphic oracle for the weight-scale twins: the tree of the unscaled case, bit for bit
+                if let Some(oi) = s.twin_of.filter(|oi| {
+                    // an unscaled case that killed the child process is reported under its own id; never refit it here
+                    let dead = crashed.contains_key(&(*oi as u64));
+                    if dead { out.bump("scale_twin_of_a_case_that_killed_the_process"); }
+                    !dead
+                }) {
+                    let o = &specs[oi];
+                    match run(o.lt, &o.x, o.d, &o.y, &o.w, &o.p, &q, o.ncls) {
+                        Ok(fo) => {
+                            if tree_term(&fo.tree) != tree_term(&f.tree) || fo.pred != f.pred {
+                                out.bump(if shape_term(&fo.tree) != shape_term(&f.tree) || fo.pred != f.pred { "scale_twin_differs_in_structure_or_predictions" } else { "scale_twin_differs_in_decrease_bits" });
+                                let d2 = format!("{{{}, \"weight_scale_exponent\": {}, \"tree\": {}, \"tree_of_unscaled_case\": {}, \"predictions\": {:?}, \"predictions_of_unscaled_case\": {:?}}}", desc_base, s.scale, tree_json(&f.tree), tree_json(&fo.tree), f.pred, fo.pred);
+                                out.rust_fail(id, 65536, &tagrefs, &format!("multiplying all sample weights and min_weight_leaf by 2^{} changed the fitted tree or its predictions", s.scale), &d2);
+                            }
+                        }
+                        Err(e) => { out.rust_fail(id, 65536, &tagrefs, &format!("the unscaled twin of this case failed to fit: {}", e), &desc); }
+                    }
+                }
                 let splits = nsplits(&f.tree);
                 out.bump(&format!("splits_{}", if splits == 0 { "0" } else if splits < 3 { "1to2" } else if splits < 8 { "3to7" } else { "ge8" }));
-                // sample weights whose f32 sums are exact (multiples of 1/4 up to 2^14; the same predicate as
-                // [exact_sums] of C14/Corr.v) get no rounding allowance; otherwise n * 2^-23 of the node's weight
-                let exact_sums = wts.iter().all(|v| *v >= 0.0 && *v <= 16384.0 && (*v * 4.0).fract() == 0.0);
+                // sample weights whose f32 sums are exact (integer multiples of one power of two, total at most 2^24
+                // units; [exact_sums] of C14/Corr.v) get no rounding allowance; otherwise n * 2^-23 of the node's weight
+                let exact_sums = exact_sums(&wts);
                 let slack = if exact_sums { 0.0 } else { n as f64 / 8388608.0 };
                 let dec_tol = 3.814697265625e-6 + DEC_SLACK_FACTOR * slack;
                 if splits > 0 {
@@ -860,5 +974,5 @@ fn main() {
     out.bump_by("worst_accepted_entropy_decrease_error_1e9", (worst_entropy * 1e9) as u64);
     out.bump_by("worst_decrease_error_with_rounding_weights_1e9", (worst_rounded * 1e9) as u64);
     out.bump_by("worst_decrease_error_beyond_2p-18_in_permille_of_n_2p-23", (worst_rounded_ratio * 1e3) as u64);
-    out.finish("streams: A exhaustive 1-D datasets over values {0,1,2} x two classes (n<=3 all, n=4 every 5th); B random two-class Gini datasets from 6 families (lattice with duplicates/conflicts, blobs, noise, constant features, values closer than 1e-5, half-integer lattice) x weights (none/dyadic/with zeros) x parameter grid; C the same families with 2..6 classes, both criteria, usize/offset usize/bool/String/decimal String/Option<usize> labels; D neighbouring doubles at large magnitude; E f32 features; F 3..6 classes with full-mantissa sample weights (f32 weight sums round); G class blocks with decimal-palette weights (0.3, 1.0, 0.1, ...: running class weights cancel to residues of either sign, min_weight_leaf on sums of palette weights; exact-weight oracle with the allowance n * 2^-23 of the node's weight). For every case: full fit compared bit for bit with the Gallina model (entropy: f32::log2 values passed as a table checked against interval enclosures) + exact checker + prediction/importance/iteration models. A case is non-trivial when the fitted tree has at least one split; distinct = distinct (data, labels, weights, parameters) hashes");
+    out.finish("streams: A exhaustive 1-D datasets over values {0,1,2} x two classes (n<=3 all, n=4 every 5th); B random two-class Gini datasets from 6 families (lattice with duplicates/conflicts, blobs, noise, constant features, values closer than 1e-5, half-integer lattice) x weights (none/dyadic/with zeros) x parameter grid; C the same families with 2..6 classes, both criteria, usize/offset usize/bool/String/decimal String/Option<usize> labels; D neighbouring doubles at large magnitude; E f32 features; F 3..6 classes with full-mantissa sample weights (f32 weight sums round); G class blocks with decimal-palette weights (0.3, 1.0, 0.1, ...: running class weights cancel to residues of either sign, min_weight_leaf on sums of palette weights; exact-weight oracle with the allowance n * 2^-23 of the node's weight); H tiny non-dyadic weights (1e-8 .. 1e-11 times small multipliers, heaviest class mostly not the smallest label); S weight-scale twins: every second weighted case of B..G and some unweighted ones again with all weights and min_weight_leaf times 2^k, k in {-30,-26,-20,-10,10,20} (exact checker at every scale + Rust-side metamorphic oracle: same tree bit for bit as the unscaled case). For every case: full fit compared bit for bit with the Gallina model (entropy: f32::log2 values passed as a table checked against interval enclosures) + exact checker + prediction/importance/iteration models. A case is non-trivial when the fitted tree has at least one split; distinct = distinct (data, labels, weights, parameters) hashes");
 }
